@@ -1,15 +1,18 @@
 package scen
 
 import (
+	"time"
+
 	"fmt"
 
 	erpc "github.com/henrylee2cn/erpc/v6"
 
+	"verif/shim/vnet"
 	"verif/shim/vsched"
 	"verif/world"
 )
 
-func init() { Sched["c14_soup"] = c14Soup }
+func init() { Sched["c14_soup"] = c14Soup; Sched["c14_dial"] = c14Dial }
 
 // stateless handlers (the harness must not add shared state of its own in race mode)
 func c14Echo(ctx erpc.CallCtx, arg *string) (*string, *erpc.Status) {
@@ -86,6 +89,61 @@ func c14Soup(p Params) func() {
 			}))
 		}
 		joinAll(ths)
+		cli.Close()
+		srv.Close()
+	}
+}
+
+// c14Dial: Dial on a redial-enabled peer while the server drops the fresh connection at once and another
+// goroutine enumerates/uses the peer's sessions: the publication of the new session (reader goroutine, index)
+// against everything Dial still does afterwards. Race mode.
+func c14Dial(p Params) func() {
+	b := p.Get("b", "range")
+	after := p.Get("after", "none") // what the dialing goroutine does with the session afterwards
+	return func() {
+		begin()
+		const addr = "10.0.0.1:9000"
+		lis := vnet.Listen(addr)
+		srv := world.NewPeer("json")
+		hc := srv.RouteCallFunc(c14Echo)
+		world.Go("acceptor", func() {
+			c, err := lis.Accept()
+			if err != nil {
+				return
+			}
+			c.Close() // the server drops the first connection at once
+			c2, err := lis.Accept()
+			if err != nil {
+				return
+			}
+			srv.ServeConn(c2)
+		})
+		cli := erpc.NewPeer(erpc.PeerConfig{DefaultBodyCodec: "json", RedialTimes: 1, RedialInterval: time.Millisecond})
+		dialer := world.Go("dialer", func() {
+			s, st := cli.Dial(addr)
+			if !st.OK() {
+				return
+			}
+			if after == "call" {
+				var r string
+				arg := "a"
+				s.Call(hc, &arg, &r)
+				s.Health()
+			}
+		})
+		observer := world.Go("observer", func() {
+			switch b {
+			case "range":
+				cli.RangeSession(func(s erpc.Session) bool { s.Health(); s.ID(); return true })
+			case "count":
+				cli.CountSession()
+			case "push":
+				cli.RangeSession(func(s erpc.Session) bool { arg := "p"; s.Push("/none", &arg); return true })
+			}
+		})
+		vsched.Join(dialer)
+		vsched.Join(observer)
+		vsched.Quiesce()
 		cli.Close()
 		srv.Close()
 	}
